@@ -3,6 +3,7 @@ package main
 import (
 	"bytes"
 	"context"
+	"errors"
 	"fmt"
 	"io"
 	"strings"
@@ -430,11 +431,25 @@ func c07RunCase(r *Run, sh c07Shape, c c07Case, caseNo int) bool {
 	var ctx context.Context
 	var cancel context.CancelFunc
 	var deadline time.Time
+	// every other case ends its context WITH A CAUSE (context.WithCancelCause / WithTimeoutCause, what an
+	// errgroup does when a sibling fails): ctx.Err() is Canceled / DeadlineExceeded all the same, and so is
+	// the status the property demands
+	withCause := caseNo%2 == 1
 	if c.Cause == "deadline" {
-		ctx, cancel = context.WithTimeout(context.Background(), time.Duration(c.TimeoutMs)*time.Millisecond)
+		if withCause {
+			ctx, cancel = context.WithTimeoutCause(context.Background(), time.Duration(c.TimeoutMs)*time.Millisecond, errors.New("budget of the whole request used up"))
+		} else {
+			ctx, cancel = context.WithTimeout(context.Background(), time.Duration(c.TimeoutMs)*time.Millisecond)
+		}
 		deadline, _ = ctx.Deadline()
+	} else if withCause {
+		cctx, ccancel := context.WithCancelCause(context.Background())
+		ctx, cancel = cctx, func() { ccancel(errors.New("sibling worker failed")) }
 	} else {
 		ctx, cancel = context.WithCancel(context.Background())
+	}
+	if withCause {
+		r.Count(scen + ".ended_with_a_cause")
 	}
 	defer cancel()
 	waitFor := func(pred func(Event) bool) bool {
